@@ -339,6 +339,7 @@ def run(ctx):
     if not seen:
         raise tlc.TlcError('no program emitted')
     check_shapes(ctx, quick)
+    check_large(ctx, quick)
     check_huge(ctx, quick)
 
 
@@ -486,6 +487,50 @@ def check_shapes(ctx, quick):
                     bad.append('get_and_grad [%s]' % tag)
         for b_ in bad:
             ctx.violation('algebra:' + b_.split('(')[0].split(' [')[0], 'shape %s ranks %s: %s differs from the definition / the dense reference' % (n, r, b_), case={'n': n, 'r': r})
+
+
+def check_large(ctx, quick):
+    """One step beyond the small scope: tensors too large for a dense array (d = 10..14, modes up to 24, ranks up to 12)
+    against an independent core-by-core contraction."""
+    rng = np.random.default_rng(ctx.seed + 21)
+    for t in range(6 if quick else 40):
+        d = int(rng.integers(10, 15))
+        n = [int(x) for x in rng.integers(2, 25, size=d)]
+        r = [1] + [int(x) for x in rng.integers(1, 13, size=d - 1)] + [1]
+        Y = [rng.normal(size=(r[k], n[k], r[k + 1])) / np.sqrt(r[k]) for k in range(d)]
+        I = np.stack([rng.integers(0, k, size=40) for k in n], axis=1)
+        ref = np.empty(len(I))
+        for s_, row in enumerate(I):
+            v = np.ones((1,))
+            for k in range(d):
+                v = v @ Y[k][:, row[k], :]
+            ref[s_] = v[0]
+        sc = np.abs(ref).max() + 1e-300
+        ctx.case(key=('large', n, r), nontrivial=True)
+        bad = []
+        if not np.abs(np.asarray(teneva.get_many(Y, I)) - ref).max() <= 1e-10 * sc:
+            bad.append('get_many')
+        if not abs(float(teneva.get(Y, I[0])) - ref[0]) <= 1e-10 * sc:
+            bad.append('get')
+        v = np.ones((1,))
+        va = np.ones((1,))
+        for k in range(d):
+            v = v @ Y[k].sum(axis=1)
+            va = va @ np.abs(Y[k]).sum(axis=1)
+        if not abs(float(teneva.sum(Y)) - v[0]) <= 1e-10 * va[0]:
+            bad.append('sum')
+        g = np.ones((1, 1))
+        for k in range(d):
+            g = np.einsum('ab,aic,bid->cd', g, Y[k], Y[k])
+        if not abs(float(teneva.norm(Y)) - np.sqrt(g[0, 0])) <= 1e-10 * np.sqrt(g[0, 0]):
+            bad.append('norm')
+        Z = teneva.add(Y, teneva.mul(Y, -0.5))
+        if not np.abs(np.asarray(teneva.get_many(Z, I)) - 0.5 * ref).max() <= 1e-10 * sc:
+            bad.append('add/mul')
+        if [int(x) for x in teneva.ranks(Y)] != r or [int(x) for x in teneva.shape(Y)] != n or int(teneva.size(Y)) != sum(G.size for G in Y):
+            bad.append('shape/ranks/size')
+        for b_ in bad:
+            ctx.violation('algebra:' + b_.split('/')[0], 'large tensor (d=%d, modes up to %d, ranks up to %d): %s differs from the core-by-core contraction' % (d, max(n), max(r), b_))
 
 
 def check_huge(ctx, quick):
